@@ -131,7 +131,7 @@ impl fmt::Debug for Pat {
 pub enum RSrc { W, R, BDrain, LzRefs }
 
 #[derive(Clone, Copy, Debug, PartialEq, Eq, Hash)]
-pub enum CapCall { Reserve, ReserveExact, ShrinkTo, ShrinkToFit }
+pub enum CapCall { Reserve, ReserveExact, ShrinkTo, ShrinkToFit, WithCapacity, PushRun }
 
 /// index encoding: 255 = usize::MAX, 254 = usize::MAX - 1
 pub fn ix(v: u8) -> usize { match v { 255 => usize::MAX, 254 => usize::MAX - 1, _ => v as usize } }
